@@ -716,10 +716,11 @@ func (b *RoleBuilder) Block(tsOffset int) types.Block {
 		binary.LittleEndian.PutUint64(tag, b.salt)
 		blk.V2 = &types.V2BlockData{Height: h, Transactions: append([]types.V2Transaction{{ArbitraryData: tag}}, b.v2...)}
 		blk.V2.Commitment = cs.Commitment(blk.MinerPayouts[0].Address, blk.Transactions, blk.V2Transactions())
-	} else if len(b.v1) == 0 {
+	} else {
+		// sibling v1 blocks built from the same operations must not be the same block (same ID)
 		tag := make([]byte, 8)
 		binary.LittleEndian.PutUint64(tag, b.salt)
-		blk.Transactions = []types.Transaction{{ArbitraryData: [][]byte{tag}}}
+		blk.Transactions = append(append([]types.Transaction(nil), b.v1...), types.Transaction{ArbitraryData: [][]byte{tag}})
 	}
 	Mine(cs, &blk)
 	return blk
@@ -771,6 +772,10 @@ func (b *RoleBuilder) Do(op string) bool {
 		span := uint64(1 + b.rng.Intn(3))
 		if len(args) > 2 {
 			span = uint64(args[2])
+		} else if !b.RW.UniqueWindows {
+			// worlds in which contracts may share a window end (pinned expiration order): make them
+			// share it often -- one span for the contracts of a block, alternating between blocks
+			span = 2 + b.childHeight()%2
 		}
 		return b.OpFC1(a, h, span)
 	case "rev1":
@@ -806,6 +811,11 @@ func (b *RoleBuilder) Do(op string) bool {
 // RandomOps applies up to n random operations of the role catalogue (skip lists operation names not
 // to draw).
 func (b *RoleBuilder) RandomOps(n int, skip map[string]bool) {
+	if n > 0 && !b.RW.UniqueWindows && b.v1OK() && !skip["fc1"] && b.rng.Intn(2) == 0 {
+		// worlds with a pinned expiration order: contracts that expire together are the point
+		b.Do("fc1")
+		b.Do("fc1")
+	}
 	for i := 0; i < n; i++ {
 		for try := 0; try < 8; try++ {
 			op := RoleOps[b.rng.Intn(len(RoleOps))]
@@ -824,9 +834,19 @@ type RoleTree struct {
 	*Tree
 	RW   *RoleWorld
 	Skip map[string]bool // operation names never drawn at random
+	// PinMode ("" | "linear" | "reverse" | "rotate", see PinOrder): every block in which two or more v1
+	// contracts expire is applied by the tree's ledgers with that permutation of the linear order,
+	// and Pin records it -- the argument of chain.WithExpiringContractOrder for a manager whose
+	// chain state is to equal these ledgers.
+	PinMode string
+	Pin     map[types.BlockID][]types.FileContractID
+	// Pinned counts the blocks whose pinned order differs from the linear one.
+	Pinned int
 }
 
-func NewRoleTree(rw *RoleWorld) *RoleTree { return &RoleTree{Tree: NewTree(rw.World), RW: rw} }
+func NewRoleTree(rw *RoleWorld) *RoleTree {
+	return &RoleTree{Tree: NewTree(rw.World), RW: rw, Pin: map[types.BlockID][]types.FileContractID{}}
+}
 
 // Add mirrors Tree.Add with the role-aware builder: a child of `parent` with the scripted
 // operations plus nOps random ones, classified with core.
@@ -863,6 +883,12 @@ func (t *RoleTree) Add(parent int, rng *rand.Rand, nOps int, script []string, ts
 		}
 	}
 	n.Block = blk
+	for _, o := range t.Nodes {
+		if o.Block.ID() == blk.ID() {
+			// two node numbers for one block ID would make every ID -> node mapping ambiguous
+			return t.Add(parent, rng, nOps, script, tsOffset+1+rng.Intn(3), corrupt)
+		}
+	}
 	n.Cls = classify(p.L, pstate, blk)
 	var ats time.Time
 	if p.L != nil {
@@ -872,8 +898,19 @@ func (t *RoleTree) Add(parent int, rng *rand.Rand, nOps int, script []string, ts
 	n.HasState = p.HasState && (n.Cls == "ok" || n.Cls == "badbody")
 	if p.L != nil && p.ValidChain && n.Cls == "ok" {
 		l := p.L.Clone()
-		if err := l.Apply(blk); err != nil {
+		pinned, err := l.ApplyOrdered(blk, PinOrder(t.PinMode))
+		if err != nil {
 			panic(fmt.Sprintf("mat: role block classified ok does not apply: %v", err))
+		}
+		if pinned != nil {
+			t.Pin[blk.ID()] = pinned
+			lin := p.L.BlockSupplement(blk).ExpiringFileContracts
+			for i := range pinned {
+				if lin[i].ID != pinned[i] {
+					t.Pinned++
+					break
+				}
+			}
 		}
 		n.L = l
 		n.ValidChain = true
